@@ -97,8 +97,6 @@ Section WithOps.
     | _ => false                                                      (* panicked, or no neighbourhood *)
     end.
 
-  Definition two24 : Z := 16777216.
-
   Definition topo_check (op : Z) (args : list sx) (observed : sx) : option sx :=
     match op, args with
     | 0, [SZ index; SZ nedge; SZ ndim] =>
